@@ -50,8 +50,12 @@ package ice
 
 // One server-reflexive gathering attempt (per URL and local address).
 //@ func (*Agent).gatherCandidatesSrflx$1
-//@   props C09
+//@   props C09 C18
 //@   requires listenAddr != nil
+//@   ghostvar publishable bool = false
+//@   site call publishableGatheredAddress#1 assert C18 checks-the-mapped-address-the-server-reported: arg0 == a && arg1 == network && arg2 == xorAddr.IP
+//@   site call publishableGatheredAddress#1 ghost publishable := result
+//@   site call NewCandidateServerReflexive#1 assert C18 publishes-only-a-mapped-address-of-an-enabled-network-type-outside-the-never-published-ranges: publishable && arg0.Network == network && arg0.Address == ipString(xorAddr.IP.base, xorAddr.IP.off, len(xorAddr.IP))
 //@   ghostvar acquired bool = false
 //@   ghostvar sock int = 0
 //@   site call listenUDPInPortRange#1 ghost acquired := result1 == nil
@@ -131,8 +135,12 @@ package ice
 // taken from the mux only after the STUN exchange succeeded, and is then closed once
 // or handed to a started candidate on every path.
 //@ func (*Agent).gatherCandidatesSrflxUDPMux$1
-//@   props C09
+//@   props C09 C18
 //@   opt nosafety
+//@   ghostvar publishable bool = false
+//@   site call publishableGatheredAddress#1 assert C18 checks-the-mapped-address-the-server-reported: arg0 == a && arg1 == network && arg2 == xorAddr.IP
+//@   site call publishableGatheredAddress#1 ghost publishable := result
+//@   site call NewCandidateServerReflexive#1 assert C18 publishes-only-a-mapped-address-of-an-enabled-network-type-outside-the-never-published-ranges: publishable && arg0.Network == network && arg0.Address == ipString(xorAddr.IP.base, xorAddr.IP.off, len(xorAddr.IP))
 //@   ghostvar outstanding int = 0
 //@   site call GetConnForURL#1 ghost after outstanding := outstanding + ite(result1 == nil, 1, 0)
 //@   site call getXORMappedAddr#1 assert no-mux-reference-is-held-during-the-stun-exchange: outstanding == 0
@@ -156,15 +164,20 @@ package ice
 // is never just dropped: it is offered to a candidate (createRelayCandidate; a failing
 // first offer closes the allocation) or released on the spot.
 //@ func (*Agent).addRelayCandidates
-//@   props C09
+//@   props C09 C18
 //@   opt nosafety
+//@   ghostvar lastOK bool = false
+//@   site call publishableGatheredAddress#1 assert C18 checks-each-relayed-address-with-the-endpoints-transport: arg0 == a && arg1 == ep.network && arg2 == ip
+//@   site call publishableGatheredAddress#1 ghost lastOK := result
+//@   site call append#1 assert C18 keeps-only-relayed-addresses-of-an-enabled-network-type: lastOK && len(arg1) == 1 && arg1[0] == ip
+//@   loop 1 invariant C09 nothing-offered-while-filtering: !offered && !closedConn && !releasedRest
 //@   ghostvar closedConn bool = false
 //@   ghostvar releasedRest bool = false
 //@   ghostvar offered bool = false
 //@   site call closeConn#0 ghost closedConn := true
 //@   site call onClose#0 ghost releasedRest := true
 //@   site call createRelayCandidate#1 ghost offered := true
-//@   loop 1 invariant every-started-round-made-an-offer: (rangeindex >= 0 ==> offered) && rangeindex + 1 <= len(addresses)
+//@   loop 2 invariant every-started-round-made-an-offer: (rangeindex >= 0 ==> offered) && rangeindex + 1 <= len(addresses)
 //@   ensures an-endpoint-is-offered-to-a-candidate-or-released-completely: offered || ((closedConn || ep.closeConn == nil) && (releasedRest || ep.onClose == nil))
 
 // When not even the candidate object can be built, nobody will ever run the endpoint's release hook
@@ -184,3 +197,26 @@ package ice
 //@   props C09 C19
 //@   opt nosafety
 //@   ensures usable-result-has-at-least-one-address: result1 ==> len(result0) >= 1
+
+// An address learnt from the network (STUN mapped address, TURN relayed address) is publishable only if the
+// network type derived from its transport and family is enabled and, for IPv6, it is neither in an
+// unsupported range (site-local, IPv4-compatible) nor link-local.
+//@ func (*Agent).publishableGatheredAddress
+//@   props C18
+//@   opt nosafety
+//@   ghostvar parsed bool = false
+//@   ghostvar enabled bool = false
+//@   ghostvar is6 bool = false
+//@   ghostvar supported bool = false
+//@   ghostvar tracked bool = true
+//@   site call AddrFromSlice#1 assert judges-the-address-it-was-given: arg0 == ip
+//@   site call AddrFromSlice#1 ghost parsed := result1
+//@   site call determineNetworkType#1 assert classifies-the-given-transport: arg0 == network
+//@   site call configuredNetworkTypes#1 assert against-the-agents-network-types: arg0 == a.networkTypes
+//@   site call Contains#1 assert looks-up-the-derived-network-type: arg1 == networkType
+//@   site call Contains#1 ghost enabled := result
+//@   site call Is6#1 ghost is6 := result
+//@   site call isSupportedIPv6Partial#1 ghost supported := result
+//@   site call shouldFilterLocationTrackedIP#1 ghost tracked := result
+//@   ensures only-a-parsable-address-of-an-enabled-network-type: result ==> parsed && enabled
+//@   ensures never-a-site-local-ipv4-compatible-or-link-local-ipv6-address: result && is6 ==> supported && !tracked
